@@ -4,3 +4,4 @@ import AcryoVerif.Props.C06
 import AcryoVerif.Props.C08
 import AcryoVerif.Props.C16
 import AcryoVerif.Props.C05
+import AcryoVerif.Props.C04
